@@ -8,10 +8,12 @@ cd "$wt" || exit 3
 git checkout -q -- . 2>/dev/null
 git apply "$demo/patch$sfx.diff" || { echo "$id$sfx: patch does not apply"; exit 3; }
 suite=$(CARGO_TARGET_DIR=/tmp/mut/target_$id cargo test --workspace --offline 2>&1 | grep -E "^test result" | awk '{p+=$4; f+=$6} END {print p "/" f}')
+CARGO_TARGET_DIR=/tmp/mut/target_$id cargo build --offline -p kmertools >/dev/null 2>&1
 script="$demo/demo$sfx.sh"
 [ -f "$script" ] || script=$(ls $demo/*demo*$sfx*.sh 2>/dev/null | head -1)
 ( cd "$demo" && timeout 900 sh "$script" >"/tmp/mut/${id}${sfx}_with.log" 2>&1 ); with=$?
 git apply -R "$demo/patch$sfx.diff"
+CARGO_TARGET_DIR=/tmp/mut/target_$id cargo build --offline -p kmertools >/dev/null 2>&1
 ( cd "$demo" && timeout 900 sh "$script" >"/tmp/mut/${id}${sfx}_without.log" 2>&1 ); without=$?
 if [ "$without" != "0" ]; then ( cd "$demo" && timeout 900 sh "$script" --orig >"/tmp/mut/${id}${sfx}_without.log" 2>&1 ); without=$?; fi
 git apply "$demo/patch$sfx.diff"
